@@ -35,7 +35,7 @@ def plan(tier, seed, drivers=("h5", "ih5")):
         k = 3 if (tier != "quick" or drv == "h5") else 2
         for first in range(n):
             # from a container that already carries metadata of three schemas (written in an earlier session)
-            parts.append(Part(H, "seq", {"drv": drv, "k": 2 if tier == "quick" else 3, "first": first, "init": 1},
+            parts.append(Part(H, "seq", {"drv": drv, "k": 3 if (tier != "quick" and drv == "h5") else 2, "first": first, "init": 1},
                               900 if tier == "quick" else 8000, 300, "same invariants, starting from a populated, reopened container", weight=2))
             parts.append(Part(H, "seq", {"drv": drv, "k": k, "first": first}, 900 if tier == "quick" else 8000, 300,
                               "after every action: TOC links <-> attached objects one-to-one, uuids unique, schema/package records exactly for schemas in use, no empty bookkeeping groups, in-memory index == disk; metadata comes back, queries exact; user tree == model",
